@@ -19,7 +19,7 @@ A = HE.A
 
 def hint_set(tier):
     i, s, b, o, K, K2, n = A('int'), A('str'), A('bool'), A('object'), A('K'), A('K2'), A('none')
-    hs = list(HE.level0())
+    hs = list(HE.level0(extra=False))
     hs += HE.reps1('all')
     cov = [i, b, s, o, K, K2, ('u', 'U', i, s), ('u', 'O', i), A('any'), A('float'), ('lit', '1'), ('lit', 'True')]
     for f in ('list', 'Sequence', 'abc.Collection', 'Iterable', 'set', 'abc.Set', 'FrozenSet', 'deque', 'abc.MutableSequence',
